@@ -14,6 +14,8 @@ import WrglModel.Driver.C05
 import WrglModel.Driver.C08
 import WrglModel.Driver.C07
 import WrglModel.Driver.C12
+import WrglModel.Driver.C14
+import WrglModel.Driver.C13
 open Lean Wrgl.Drv
 
 def dispatch (prop op : String) (input impl : Json) : Except String Json :=
@@ -32,6 +34,8 @@ def dispatch (prop op : String) (input impl : Json) : Except String Json :=
   | "C08" => handleC08 op input impl
   | "C07" => handleC07 op input impl
   | "C12" => handleC12 op input impl
+  | "C14" => handleC14 op input impl
+  | "C13" => handleC13 op input impl
   | "C18" => handleC18 op input impl
   | _ => .error s!"unknown property {prop}"
 
